@@ -30,6 +30,7 @@ def act? : Sexp → Option Act
   | .list [.atom "drop"] => some .drop
   | .list [.atom "rev"] => some .rev
   | .list [.atom "dup"] => some .dup
+  | .list [.atom "app", v] => do pure (.app (← chars? v))
   | .list [.atom "failP"] => some .failP
   | .list [.atom "failF"] => some .failF
   | .list [.atom "condFalse", b] => do pure (.condFalse (← b.bool?))
@@ -116,6 +117,9 @@ def scanSexp (r : ScanR) : Sexp :=
 def mkP (mode : List Sexp) (g : Grammar) (s : List Char) (fuel : Nat) : Option P :=
   match mode with
   | [.atom "none"] => some (parse g s fuel)
+  -- packrat with any cache size: by `packrat_transparent` (Props/C02) the model's outcome under ANY cache content is
+  -- the uncached outcome, so the prediction for the real packrat run is `parse` itself
+  | [.atom "packrat", _] => some (parse g s fuel)
   | _ => none
 
 def parseHandle : List Sexp → Option Sexp
